@@ -5,6 +5,7 @@ branch consults Path.branch(), which follows the prefix or, beyond it, checks fe
 sides with z3 and queues the alternative.
 """
 import ast
+import os
 import builtins
 import itertools
 import inspect
@@ -446,6 +447,12 @@ class Interp:
                 "index", "count", "discard", "items", "keys", "values", "copy", "clear"):
             if (name in ("remove", "index", "count", "discard") or (isinstance(owner, (dict, set)) and name in (
                     "add", "get", "pop", "setdefault") and is_symbolic(args[:1]))) and _has_sv(args[:1]):
+                k0 = args[0] if args else None
+                if isinstance(owner, set) and name == "add" and isinstance(k0, SV) and all(isinstance(x, SV) and x.t.eq(k0.t) for x in owner):
+                    # a set that is empty or holds only this very term: the result is {k0} whatever its value (membership goes through Interp.contains)
+                    if not owner:
+                        owner.add(k0)
+                    return None
                 raise Unsupported("container method %s with symbolic key" % name)
             return f(*args, **kwargs)
         raise Unsupported("builtin method %r with symbolic arguments" % (name,))
@@ -1359,6 +1366,13 @@ class Interp:
             return _Partial(m, obj)
         if isinstance(obj, SymMap) and attr in ("pop", "get"):
             return _Partial(_symmap_pop if attr == "pop" else _symmap_get, obj)
+        if os.environ.get("PYVC_TRACE"):
+            import sys as _s
+            fr = _s._getframe()
+            while fr is not None:
+                if fr.f_code.co_name == "exec" and "s" in fr.f_locals and "env" in fr.f_locals:
+                    print("PYVC_TRACE at %s line %s" % (getattr(fr.f_locals["env"], "qualname", "?"), getattr(fr.f_locals["s"], "lineno", "?")), file=_s.stderr)
+                fr = fr.f_back
         raise Unsupported("attribute %s of symbolic %s" % (attr, type(obj).__name__))
 
     def sym_getattr(self, obj, attr):
